@@ -1,9 +1,11 @@
-(* C13 — Text edge lists round-trip and the loader accepts the documented format.  Statements only; proofs in TextProofs.v.
-   PARTIAL: proved are the tokeniser (any run of spaces/tabs before, between and after the two vertex tokens; the rest of the line goes
-   to the label parser) and the decimal round trip of vertex indices. The file-level round trip, the comment rule and the name table are
-   tied to the implementation, to the model and to an independent reading of the format by the correspondence check only. *)
+(* C13 — Text edge lists round-trip and the loader accepts the documented format.  Statements only; proofs in TextProofs.v, RoundTrip.v, URoundTrip.v, TextRoundTrip.v.
+   Proved: the tokeniser (any run of spaces/tabs before, between and after the two vertex tokens; the rest of the line goes to the label
+   parser), the decimal round trip of vertex indices, and the file-level write-then-load round trip for directed and undirected graphs with
+   int labels (the header comment line the writer emits is skipped by the comment rule).
+   PARTIAL: loading of hand-written files with comment lines anywhere and the vertex-name table of loadTextVertexLabeledEdgeList are tied
+   to the implementation, to the model and to an independent reading of the format by the correspondence check only. *)
 From Coq Require Import List NArith ZArith.
-From BG Require Import Base IOModel TextProofs.
+From BG Require Import Base IOModel TextProofs DirectedModel DirectedProofs UndirectedProofs Equality RoundTrip URoundTrip TextRoundTrip.
 Import ListNotations.
 Local Open Scope N_scope.
 
@@ -20,11 +22,31 @@ Theorem C13_index_round_trip : forall n, n < 2 ^ 31 -> stoi (to_string n) = Val 
 Proof. exact stoi_to_string. Qed.
 Print Assumptions C13_index_round_trip.
 
-Definition C13_file_round_trip_full_statement : Prop := forall (g : @DirectedModel.dgraph Z), DirectedProofs.Inv true g ->
+(* file-level round trip (directed, then undirected): writing g (int labels in [0, 2^31), label store a map, at most 3001 vertices - the
+   model of the loader refuses larger indices, which is the harness limit, not a limit of the C++ code) and loading the bytes gives, after
+   resizing to the original vertex count, a graph == g; directed neighbour lists come back identical, undirected ones as sets (the exact
+   order is [reloaded]: smaller neighbours ascending, then the others in their original order) *)
+Theorem C13_file_round_trip : forall (g : @DirectedModel.dgraph Z), DirectedProofs.Inv true g -> Equality.KeysOK g -> (DirectedModel.size g <= S 3000)%nat ->
   (forall e l, lfind e (DirectedModel.labels g) = Some l -> (0 <= l < 2 ^ 31)%Z) ->
   exists b h names, write_text DirectedModel.repaired false 0%Z true (fun z => to_string (Z.to_N z)) g = Val b /\
     load_text DirectedModel.repaired false true true stoi b = Val (h, names) /\
-    exists h', DirectedModel.lift (DirectedModel.resize h (Nat.max (DirectedModel.size h) (DirectedModel.size g))) = Val h' /\ DirectedModel.graph_eqb Z.eqb h' g = Val true.
+    exists h', DirectedModel.lift (DirectedModel.resize h (Nat.max (DirectedModel.size h) (DirectedModel.size g))) = Val h' /\
+      DirectedModel.graph_eqb Z.eqb h' g = Val true /\
+      DirectedModel.adj h' = DirectedModel.adj g /\ DirectedModel.size h' = DirectedModel.size g /\ DirectedModel.enum h' = DirectedModel.enum g /\
+      (forall e, lfind e (DirectedModel.labels h') = lfind e (DirectedModel.labels g)).
+Proof. exact TextRoundTrip.C13_file_round_trip_partial. Qed.
+Print Assumptions C13_file_round_trip.
+Theorem C13_file_round_trip_undirected : forall (g : @DirectedModel.dgraph Z), UndirectedProofs.InvU true g -> Equality.KeysOK g -> (DirectedModel.size g <= S 3000)%nat ->
+  (forall e l, lfind e (DirectedModel.labels g) = Some l -> (0 <= l < 2 ^ 31)%Z) ->
+  exists b h names, write_text DirectedModel.repaired true 0%Z true (fun z => to_string (Z.to_N z)) g = Val b /\
+    load_text DirectedModel.repaired true true true stoi b = Val (h, names) /\
+    exists h', DirectedModel.lift (DirectedModel.resize h (Nat.max (DirectedModel.size h) (DirectedModel.size g))) = Val h' /\
+      DirectedModel.graph_eqb Z.eqb h' g = Val true /\
+      DirectedModel.size h' = DirectedModel.size g /\ DirectedModel.enum h' = DirectedModel.enum g /\
+      (forall k, (k < DirectedModel.size g)%nat -> DirectedProofs.nb h' k = URoundTrip.reloaded g k) /\ (forall i j, In j (DirectedProofs.nb h' i) <-> In j (DirectedProofs.nb g i)) /\
+      (forall e, lfind e (DirectedModel.labels h') = lfind e (DirectedModel.labels g)).
+Proof. exact TextRoundTrip.C13_file_round_trip_undirected. Qed.
+Print Assumptions C13_file_round_trip_undirected.
 
 Example C13_example :
   find_edge_from_string [32; 49; 50; 9; 32; 55; 32; 104; 105; 32; 33; 32] = Val ([49; 50], [55], [104; 105; 32; 33; 32]) /\
